@@ -7,7 +7,8 @@
 import copy, json, os
 import common, sched
 
-TIE = {"Agent": sched._ties_of("Agent"), "Load": sched.LOAD_TIES_FOR_SCHED, "Sched": sched.SCHED_TIE,
+TIE = {"Params": ["h_params_modelParams", "h_params_removeQuotes", "h_params_NewExecutionGraphForRetry", "h_params_parseParams"],   # + the rest-of-file ties of cmd/retry.go, start.go, restart.go: "the retry uses the parameter values of the recorded run"
+       "Agent": sched._ties_of("Agent"), "Load": sched.LOAD_TIES_FOR_SCHED, "Sched": sched.SCHED_TIE,
        "Graph": ["h_graph_setupRetry", "h_graph_NewExecutionGraphForRetry", "h_graph_addEdge", "h_graph_setup", "setupRetryFacts"]}
 
 
